@@ -129,6 +129,8 @@ func (x *Exec) strConst(st *State, s string) string {
 	if s == "" {
 		x.decls.Const("gstr.empty", "Str")
 		x.ensurePre(eq(x.strLen("gstr.empty"), x.idxLit(0)))
+		// there is one string of length zero
+		x.ensurePre(fmt.Sprintf("(forall ((s Str)) (! (=> (= (gstr.len s) %s) (= s gstr.empty)) :pattern ((gstr.len s))))", x.idxLit(0)))
 		return "gstr.empty"
 	}
 	if n, ok := x.strConsts[s]; ok {
